@@ -118,8 +118,9 @@ def nested_inputs():
     decoders that recurse into their value (or re-scan it) show their cost here"""
     ls, ps = tlv_types()
     for t in ls:
-        for lead in (0, 4, 8):
-            for core in (struct.pack('!HH', t, 0), struct.pack('!HH', t, 200) + b'\x01'):
+        for lead in (0, 4, 8, 12, 16, 20, 22, 24, 28):      # fixed octets before the sub-TLV area (22 = End.X SID, 8 = locator ...)
+            # innermost element: empty, just the fixed octets (well formed when the lead fits the type), or malformed
+            for core in (struct.pack('!HH', t, 0), struct.pack('!HH', t, lead) + b'\x00' * lead, struct.pack('!HH', t, 200) + b'\x01'):
                 for limit in (1000, 4000):
                     d = core
                     while len(d) + 4 + lead <= limit:
